@@ -1,6 +1,7 @@
 """Driver of recorded what-if simulations (C05, C06): seeded systems, change lists (inputs, links, lists, mixtures,
 invalid / failing ones), dates (first hour, interior, last, outside, naive), toggle sequences; after each operation the
 identities of all value objects, the dependency graph, value classes and links are projected."""
+import copy
 import random
 from datetime import datetime, timedelta, timezone
 
@@ -254,9 +255,70 @@ def probe_inputs(ns, tid0, seed, per_model=14):
             continue
         events.append(dict(tid=tid0 + k, seq=0, ev="SimProbe", seed=seed, flavour=f"probe:{model[n]['cls']}.{a}",
                            date_kind="interior", outcome="created", exc="none", expect_ok=True, hourly_input_changed=False,
-                           all_ups_active=True, date_hour=int(date.timestamp() // 3600),
+                           timeline_shifted=False, all_ups_active=True, date_hour=int(date.timestamp() // 3600),
                            n_values_to_recompute=len(sim.values_to_recompute),
                            recomputed=recomputed_summary(ns, proj, sim)))
+    return events
+
+
+def probe_links(ns, tid0, seed, per_model=4):
+    """systematic part of C06 for link changes: on one seeded system with at least two usage patterns, the usage patterns are
+    put in two countries far apart (Pacific/Honolulu and Pacific/Auckland, then the other way round: which usage pattern the
+    implementation meets first is not under the caller's control), and simulations of list / link changes are made at interior
+    dates at which every usage pattern is active.  Judged like the input probes: twins paired, no simulated hour before the date."""
+    rng = random.Random(seed)
+    model0 = gen.random_model(rng)
+    ups = efx.names_of(model0, "UsagePattern")
+    if len(ups) < 2:
+        return []
+    events = []
+    for order, zones in enumerate((("Pacific/Honolulu", "Pacific/Auckland"), ("Pacific/Auckland", "Pacific/Honolulu"))):
+        model = copy.deepcopy(model0)
+        # one country per usage pattern, alternately in the two zones
+        c0 = model[ups[0]]["lnk"]["country"]
+        for k, u in enumerate(ups):
+            cn = f"cz{k}"
+            model[cn] = copy.deepcopy(model0[c0])
+            model[cn]["opt"]["tz"] = zones[k % 2]
+            model[u]["lnk"]["country"] = cn
+        try:
+            live = efx.build(ns, model)
+        except Exception:
+            continue
+        lo, hi, last_per_up = period(ns, live, model)
+        if lo is None or len(last_per_up) != len(ups):
+            continue
+        firsts = [live[n].utc_hourly_usage_journey_starts.value.index.min() for n in ups]
+        lo_all, hi_all = max(firsts), min(last_per_up)
+        if hi_all <= lo_all + timedelta(hours=1):
+            continue
+        proj = Projector(ns)
+        n_hours = int((hi_all - lo_all).total_seconds() // 3600)
+        done = 0
+        for _ in range(per_model * 6):
+            if done >= per_model:
+                break
+            e = gen.random_edit(rng, model, ["list", "link"])
+            if e is None or e[0] not in ("list", "link"):
+                continue
+            date = (lo_all + timedelta(hours=rng.randint(1, max(1, n_hours)))).to_pydatetime()
+            try:
+                change = efx.new_value_for(ns, model, live, e)
+                sim = ns.ModelingUpdate([change], date)
+            except Exception:   # noqa: refused simulations are C05's subject
+                continue
+            if not any(getattr(v.modeling_obj_container, "name", None) in ups for v in sim.values_to_recompute):
+                continue        # the usage patterns are not recomputed by this change: nothing is clipped per zone
+            # moving a usage pattern to a country in another zone is the recorded finding of C06 (clipped in the zone it had before)
+            shifted = (e[0] == "link" and e[2] == "country"
+                       and model[e[3]]["opt"]["tz"] != model[model[e[1]]["lnk"]["country"]]["opt"]["tz"])
+            done += 0 if shifted else 1
+            events.append(dict(tid=tid0 + len(events), seq=0, ev="SimProbe", seed=seed,
+                               flavour=f"probe:{e[0]}:{model[e[1]]['cls']}.{e[2]}:zones-{order}", date_kind="interior",
+                               outcome="created", exc="none", expect_ok=True, hourly_input_changed=False,
+                               timeline_shifted=bool(shifted), all_ups_active=True, date_hour=int(date.timestamp() // 3600),
+                               n_values_to_recompute=len(sim.values_to_recompute),
+                               recomputed=recomputed_summary(ns, proj, sim)))
     return events
 
 
